@@ -46,6 +46,11 @@ type Finding struct {
 	// Match is a regular expression over Violation.Sig (anchored).
 	Match   string `json:"match"`
 	Witness string `json:"witness"`
+	// WitnessOnly: the finding lies in a region the generator keeps out of by
+	// construction; its matcher only judges its own witness (the driver prints
+	// KNOWN-FINDING while that still fails). Met by the generated search, the
+	// same signature is an unlisted violation.
+	WitnessOnly bool `json:"witness_only,omitempty"`
 
 	re *regexp.Regexp
 }
@@ -312,6 +317,9 @@ func (r *Run) Judge(replay any, vs []Violation) []Violation {
 	for _, v := range vs {
 		matched := false
 		for _, f := range r.findings {
+			if f.WitnessOnly && !r.replayMode {
+				continue
+			}
 			if f.re.MatchString(v.Sig) {
 				r.st.Known[f.ID]++
 				if _, ok := r.st.KnownExample[f.ID]; !ok {
